@@ -17,6 +17,7 @@ type Ctx struct {
 	R     *Reporter
 	Tier  string
 	Verif string
+	e1eng *e1
 }
 
 // PropSpec describes how one property is decided.
@@ -47,7 +48,28 @@ func main() {
 	verif := flag.String("verif", "/verif", "verif directory (evidence/, replay/, known_findings.json)")
 	replay := flag.String("replay", "", "replay file: re-evaluate and print that single obligation")
 	list := flag.Bool("list", false, "list properties")
+	dump := flag.String("dump", "", "debug: print the E1 facts reaching every sink site of the named function")
 	flag.Parse()
+	if *dump != "" {
+		p, err := Load(LoadOpts{Repo: *repo, Controls: filepath.Join(*verif, "checker", "controls")})
+		if err != nil {
+			fmt.Fprintln(os.Stderr, err)
+			os.Exit(2)
+		}
+		c := &Ctx{P: p, R: NewReporter("dump", "quick", 0), Verif: *verif}
+		fi := p.Fn(*dump)
+		if fi == nil {
+			fmt.Fprintln(os.Stderr, "no such function; candidates:")
+			for _, f := range p.Funcs {
+				if strings.Contains(f.Name, *dump) {
+					fmt.Fprintln(os.Stderr, "  ", f.Name)
+				}
+			}
+			os.Exit(2)
+		}
+		fmt.Print(c.e1().analyse(fi).dump())
+		return
+	}
 
 	if *list {
 		var ids []string
